@@ -1192,6 +1192,15 @@ fn probes_idem(o: &mut Outcome) {
         let r2 = fmt(&r1.out, cfg);
         o.probes.push(json!({"id": "STR-IDEM-ITEM", "fails": r1.status == Status::Ok && r2.status == Status::Ok && r1.out != r2.out, "what": "wrap_comments is not idempotent on an itemized block (here a block quote) with a URL further down: `detect_url` answers for the whole rest of the item, so the first pass keeps `. ftp://b==a_/=. (0at)_Zc(bet` on one over-long line and the second pass, which sees shorter items, breaks it", "detail": {"src": src, "first": r1.out, "second": r2.out}}));
     }
+    // the two repaired idempotence defects: reproductions, which must stay clean
+    for (id, src, cfg) in [
+        ("STR-FIX-CONT-CONT", "const S: &str = \"{e00Zb)e(\\\n\\u{e9} }_\\\n       \\\n          e{a{-((\";\n".to_string(), vec![kv("format_strings", "true"), kv("max_width", 43)]),
+        ("STR-FIX-EMPTY-LINE", "mod m {\n    /// text with a back\\slash and a \"quote\" and trailing punctuation, like this; and this: done.\n    fn f() {}\n}\n".to_string(), vec![kv("wrap_comments", "true"), kv("max_width", 21)]),
+    ] {
+        let r1 = fmt(&src, cfg.clone());
+        let r2 = fmt(&r1.out, cfg);
+        o.probes.push(json!({"id": id, "fails": r1.status != Status::Ok || r2.status != Status::Ok || r1.out != r2.out, "what": "format; format differs from format on the reproduction of a defect of string.rs that a fix: commit repaired", "detail": {"src": src, "first": r1.out, "second": r2.out}}));
+    }
     // STR-IDEM-CONT-ESC: a continuation directly followed by an escaped backslash and another continuation
     {
         let body = "aaaaaaaaaaaaaaaaaaaaaaaaa bbbbbbbbbbbbbb\\\n    \\\\\\\n    cccccccccccccccccccccc dddddddddddddd eeeeeeeeeeeee";
